@@ -3,6 +3,7 @@
 //! the specification.
 
 mod errclass;
+mod mnemonic;
 mod queue;
 mod status;
 mod util;
@@ -13,6 +14,8 @@ fn main() {
     let rest = &args[1.min(args.len())..];
     let code = match cmd {
         "errclass-rows" => errclass::rows(rest),
+        "mnem-replay" => mnemonic::replay(rest),
+        "mnem-rows" => mnemonic::rows(rest),
         "queue-edges" => queue::replay_edges(rest),
         "queue-trace" => queue::record_trace(rest),
         "status-edges" => status::replay_edges(rest),
